@@ -7,8 +7,6 @@ import (
 	"github.com/moorara/algo/sort"
 )
 
-var h = fnv.New64()
-
 // Strings is a list of grammar strings, each representing a sequence of grammar symbols.
 type Strings []grammar.String[grammar.Symbol]
 
@@ -40,7 +38,8 @@ func eqStrings(lhs, rhs Strings) bool {
 }
 
 func hashStrings(s Strings) uint64 {
-	h.Reset()
+	// A new hasher for every call: a hasher shared at package level is not safe for concurrent parsers.
+	h := fnv.New64()
 
 	sort.Quick(s, grammar.CmpString)
 	for _, α := range s {
